@@ -19,17 +19,19 @@ import (
 // c12Round: every listed client performs some local operations, then all their syncs are sent
 // at the same moment from separate goroutines.
 type c12Round struct {
-	Clients []int  `json:"clients"`
-	Ops     []int  `json:"ops"` // local operations per listed client before the round
-	Patch   bool   `json:"patch"`
-	Reg     bool   `json:"register"`           // a new client registers concurrently
-	Rev     []bool `json:"reversed,omitempty"` // per listed client: its packs are sent in reverse order (real clients list their datatypes in map order)
+	Clients []int `json:"clients"`
+	Ops     []int `json:"ops"` // local operations per listed client before the round
+	Patch   bool  `json:"patch"`
+	Reg     bool  `json:"register"` // a new client registers concurrently
+	// Bad: one more concurrent request that the server has to refuse (a new client tries to CREATE an existing key)
+	Bad bool   `json:"refused_request,omitempty"`
+	Rev []bool `json:"reversed,omitempty"` // per listed client: its packs are sent in reverse order (real clients list their datatypes in map order)
 }
 
 func TestC12(t *testing.T) {
 	col := stats.New("C12", t.Name(),
 		"generated WORKLOADS against the real server: after a warm-up (prelude: 2-6 clients subscribed to 1-2 shared keys, so the lock objects already exist and their creators' request contexts are cancelled) rounds in which 2-6 clients first issue local operations and then ALL send their push-pull (one message with one pack per datatype of the client, the packs in listed or reversed order) at the same moment from separate goroutines "+
-			"(each call with its own request context, cancelled on return), optionally together with a REST patch and a client registration; per-command database latencies of 0-2 ms are drawn as perturbation; after each round the responses are applied; "+
+			"(each call with its own request context, cancelled on return), optionally together with a REST patch, a client registration and a request that has to be refused (a new client tries to create an existing key); per-command database latencies of 0-2 ms are drawn as perturbation; after each round the responses are applied; "+
 			"oracle: every call returns within its deadline, the process survives, after every round the stored-log invariants hold (gapless, exactly once, per-client order - i.e. the result equals some one-at-a-time order), at the end everybody converges to refmodel(log); "+
 			"with the -race binary (thorough tier and quick) no DATA RACE report may name server code on both sides (checked by the driver on the process output); "+
 			"non-trivial = in some round >=2 handlers of the same key overlapped in time at the database (their command intervals intersect); distinct = hash of the workload (schedules are sampled)")
@@ -70,7 +72,7 @@ func TestC12(t *testing.T) {
 				return time.Duration(v%(maxLat+1)) * time.Microsecond
 			})
 		}
-		overlapped, multiPackOpposite := false, false
+		overlapped, multiPackOpposite, refusedSent := false, false, false
 		rounds := rapid.IntRange(1, 6).Draw(rt, "rounds")
 		docKey := ""
 		for _, k := range w.keys {
@@ -90,6 +92,7 @@ func TestC12(t *testing.T) {
 			}
 			round.Patch = docKey != "" && rapid.IntRange(0, 3).Draw(rt, fmt.Sprintf("patch%d", r)) == 0
 			round.Reg = rapid.IntRange(0, 3).Draw(rt, fmt.Sprintf("reg%d", r)) == 0
+			round.Bad = rapid.IntRange(0, 3).Draw(rt, fmt.Sprintf("bad%d", r)) == 0
 			c.j.add(round)
 			canon.WriteString(fmt.Sprintf("round%v;", round))
 			if len(round.Clients) == 0 {
@@ -142,7 +145,35 @@ func TestC12(t *testing.T) {
 					j.ex = w.rawSend(j.req)
 				}(j)
 			}
-			var patchTimedOut, regTimedOut bool
+			var patchTimedOut, regTimedOut, badTimedOut bool
+			if round.Bad {
+				// a request that is refused while the others run: it must not disturb them (a handler that
+				// leaves by an error path still has to give its lock back)
+				var target *l1Key
+				for _, k := range w.keys {
+					if k.created {
+						target = k
+					}
+				}
+				if target != nil {
+					pc := w.env.NewUnregisteredPackClient(w.col, fmt.Sprintf("intruder%d", r))
+					ic := &l1Client{idx: 1000 + r, pc: pc, dts: map[string]*l1DT{}}
+					w.open(ic, target, "create")
+					knownCUIDs[pc.CUID()] = true
+					if err := pc.Register(l1Deadline); err == nil {
+						if req := pc.BuildRequest(); req != nil {
+							refusedSent = true
+							wg.Add(1)
+							go func() {
+								defer wg.Done()
+								<-start
+								ex := w.rawSend(req)
+								badTimedOut = ex.timedOut
+							}()
+						}
+					}
+				}
+			}
 			if round.Patch {
 				patchesHappened = true
 				wg.Add(1)
@@ -165,8 +196,8 @@ func TestC12(t *testing.T) {
 			}
 			close(start)
 			wg.Wait()
-			if patchTimedOut || regTimedOut {
-				c.failf("round %d: a concurrent patch/registration was never answered (patch=%v registration=%v)", r, patchTimedOut, regTimedOut)
+			if patchTimedOut || regTimedOut || badTimedOut {
+				c.failf("round %d: a concurrent patch / registration / refused create was never answered (patch=%v registration=%v refused-create=%v)", r, patchTimedOut, regTimedOut, badTimedOut)
 			}
 			for _, j := range jobs {
 				if j.ex.timedOut {
@@ -209,6 +240,9 @@ func TestC12(t *testing.T) {
 		var labels []string
 		if multiPackOpposite {
 			labels = append(labels, "multi-pack-requests-in-opposite-orders")
+		}
+		if refusedSent {
+			labels = append(labels, "refused-request-among-the-concurrent-ones")
 		}
 		if overlapped {
 			labels = append(labels, "same-key-handlers-overlapped")
